@@ -672,7 +672,10 @@ class _PairsClassifierMixin(BaseMetricLearner, ClassifierMixin):
       cum_tn_inverted = stable_cumsum(y_ordered[::-1] == -1)
       cum_tn = np.concatenate([[0.], cum_tn_inverted])[::-1]
       cum_accuracy = (cum_tp + cum_tn) / n_samples
-      imax = np.argmax(cum_accuracy)
+      # a threshold accepts every pair tied with the lowest accepted score, so
+      # only the last position of a run of equal scores is attainable
+      attainable = np.append(scores_sorted[:-1] != scores_sorted[1:], True)
+      imax = np.flatnonzero(attainable)[np.argmax(cum_accuracy[attainable])]
       # we set the threshold to the lowest accepted score
       # note: we are working with negative distances but we want the threshold
       # to be with respect to the actual distances so we take minus sign
@@ -706,9 +709,11 @@ class _PairsClassifierMixin(BaseMetricLearner, ClassifierMixin):
       # (see a more detailed discussion in test_calibrate_threshold_extreme)
       return self
 
+    # keep every distinct threshold: a dropped collinear point can be the only
+    # one that is both admissible (min_rate) and optimal
     fpr, tpr, thresholds = roc_curve(y_valid,
                                      self.decision_function(pairs_valid),
-                                     pos_label=1)
+                                     pos_label=1, drop_intermediate=False)
     # here the thresholds are decreasing
     fpr, tpr, thresholds = fpr, tpr, thresholds
 
